@@ -194,7 +194,8 @@ class Run:
             self.corr_disagreements.append({"op": "<driver failed>", "real": "", "model": repr(e)[:1000]})
             return
         for (line, real, mode, meta), out in zip(self.ops, outs):
-            model = P.canon_coords(out)
+            model = P.strip_scratch(P.canon_coords(out))
+            real = P.strip_scratch(real)
             if model == real:
                 self.stats["corr_agree"] += 1
                 continue
